@@ -38,13 +38,14 @@ ALPHABET = [
     "delitem", "remove", "delete", "insert", "append", "extend", "items_self", "items_lines",
     "reparse", "copy", "export_import", "shading", "shadow_triple", "delete_shadow",
     "ungroup_ports", "ungroup_ports_group", "ace_ungroup_ports", "tcam", "set_item_seq",
-    "set_remark_text", "set_members", "set_type", "conv_obj", "ag_resequence", "set_note",
+    "set_remark_text", "set_members", "set_type", "conv_obj", "ag_resequence", "set_note", "set_ports",
 ]
 
 BIAS = {
     "C02": {"set_platform": 10, "flip3": 4, "conv_obj": 3, "group": 2, "ungroup": 1,
             "resequence": 1, "set_port_nr": 1, "set_protocol_nr": 1, "copy": 1,
-            "export_import": 1, "reparse": 1, "set_members": 1},
+            "export_import": 1, "reparse": 1, "set_members": 1, "insert": 2, "append": 1,
+            "set_ports": 1, "items_self": 1},
     "C04": {"shadow_triple": 10, "delete_shadow": 3, "shading": 3, "shadow_of": 1, "group": 2,
             "ungroup": 1, "resequence": 1, "insert": 2, "append": 2, "set_platform": 1,
             "set_members": 5, "copy": 1, "permute_popins": 1, "set_note": 2},
@@ -56,7 +57,7 @@ BIAS = {
             "items_self": 1, "set_remark_text": 1},
     "C19": {"ungroup_ports": 8, "ungroup_ports_group": 3, "ace_ungroup_ports": 4,
             "set_platform": 3, "group": 2, "ungroup": 1, "resequence": 1, "insert": 2,
-            "append": 1, "copy": 1},
+            "append": 1, "copy": 1, "set_ports": 3, "export_import": 1},
 }
 
 
@@ -149,6 +150,7 @@ class AclMachine(Machine):
             aborts=w.random() < 0.25,
             members_known=w.random() < 0.8,
             two_clients=w.random() < 0.2,
+            from_config=w.random() < 0.2,
         )
         bias = BIAS.get(self.prop)
         if self.prop == "C04":
@@ -223,6 +225,11 @@ class AclMachine(Machine):
             self._fail(owner if owner == "C02" else "C17", orc,
                        f"{where}: rendered text is not {m.platform} syntax: {ex}\n{text}", **disc)
         attr = alpha_attr(acl)
+        lv = leaves(acl)
+        if len({id(x) for x in lv}) != len(lv):
+            self._fail(owner if owner in ("C19", "C15") else "C17", f"{owner}.aliased-entries",
+                       f"{where}: the same entry object stands at two positions of the ACL",
+                       **disc)
         # -- attributes in sync with the text
         d_text = [r.den(with_members=False) for r in rules_t]
         d_attr = [r.den(with_members=False) for r in attr.flat()]
@@ -390,6 +397,8 @@ class AclMachine(Machine):
         try:
             if k == "create_acl":
                 return self._op_create(op)
+            if k == "create_cfg":
+                return self._op_create_cfg(op)
             if k == "memo_clear":
                 self.memo.clear()
                 return "ok"
@@ -462,6 +471,62 @@ class AclMachine(Machine):
         self.check_state(slot, "after create", op=op)
         return "ok"
 
+    def _op_create_cfg(self, op):
+        """ACLs built by the config-level function, group members attached by the library."""
+        import cisco_acl
+        from .model import Cube
+        platform, version = op["platform"], op["version"]
+        parts = []
+        for g, mem in op["groups"].items():
+            parts.append(("object-group ip address " if platform == "nxos"
+                          else "object-group network ") + g)
+            for base, mask in mem:
+                if mask == 0:
+                    parts.append(f" host {gen.ip(base)}")
+                elif platform == "nxos":
+                    parts.append(f" {gen.ip(base)}/{gen.plen(mask)}")
+                else:
+                    parts.append(f" {gen.ip(base)} {gen.ip(~mask & 0xFFFFFFFF)}")
+        for a in op["acls"]:
+            parts.append(gen.header(platform, "extended", a["name"]))
+            parts.extend(" " + ln for ln in a["lines"])
+        config = "\n".join(parts)
+        try:
+            models = []
+            for a in op["acls"]:
+                text = "\n".join([gen.header(platform, "extended", a["name"])]
+                                 + [op["indent"] + ln for ln in a["lines"]])
+                models.append(Reader(platform, version, strict=True).acl(text))
+        except ReadError:
+            return "noop-unreadable"
+        objs = cisco_acl.acls(config, platform=platform, version=version, indent=op["indent"],
+                              group_by=op["group_by"], port_nr=op["port_nr"],
+                              protocol_nr=op["protocol_nr"])
+        if len(objs) != len(op["acls"]):
+            self._fail("C17", "C17.config-acls", f"acls(config) returned {len(objs)} ACLs for "
+                                                 f"{len(op['acls'])} sections")
+        mcubes = {g: tuple(Cube.wild(b, m_) for b, m_ in mem) for g, mem in op["groups"].items()}
+        self.slots = []
+        for acl, (t_, name, rules) in zip(objs, models):
+            for r in rules:
+                if r.kind == "ace":
+                    for ad in (r.src, r.dst):
+                        if ad.group:
+                            ad.members = mcubes.get(ad.group, ())
+            m = AclM(name=name, type=t_, platform=platform, version=version,
+                     port_nr=op["port_nr"], protocol_nr=op["protocol_nr"], indent=op["indent"],
+                     group_by=op["group_by"])
+            if op["group_by"]:
+                m.blocks = group_blocks(rules, op["group_by"])
+            else:
+                m.blocks = [Block([r], grouped=False, seq=r.seq) for r in rules]
+            slot = dict(acl=acl, m=m)
+            self.slots.append(slot)
+        self.probes["created_from_config"] += 1
+        for slot in self.slots:
+            self.check_state(slot, "after acls(config)", op=op)
+        return "ok"
+
     # ---- the generic path: twin, model, oracles
     def _op_generic(self, slot, op):  # noqa: C901
         k = op["op"]
@@ -479,6 +544,7 @@ class AclMachine(Machine):
         pre_data = fastcopy(acl.data())
         pre_leaves = list(leaves(acl))
         self._pre_notes = [norm(x.note) for x in pre_leaves]
+        others = [(o, norm(o["acl"].data())) for o in self.slots if o is not slot]
         # -- twin (history-free object with the same observable state)
         twin = None
         try:
@@ -517,6 +583,13 @@ class AclMachine(Machine):
                 terr = ex
             finally:
                 self.memo.active = was
+        # -- no operation on one ACL may change another live ACL
+        for o, snap in others:
+            if norm(o["acl"].data()) != snap:
+                self._count_owned(owner)
+                self._fail(owner, f"{owner}.interference",
+                           f"{k} {self._brief(op)} on one ACL changed another live ACL: "
+                           f"{self._dict_diff(snap, norm(o['acl'].data()))}", opkind=k)
         # -- outcome classification
         if err is not None:
             ename = type(err).__name__
@@ -530,6 +603,10 @@ class AclMachine(Machine):
             if exp.error is None:
                 orc = {"C02": "C02.converts", "C10": "C10.error-iff"}.get(owner,
                                                                           f"{owner}.unexpected-error")
+                if self.prop == "C19" and k in ("set_platform", "flip3") and \
+                        any(needs_split(r) for r in m.flat()):
+                    # the automatic split of the conversion is C19's clause as well
+                    owner, orc = "C19", "C19.implicit-split-fails"
                 self._count_owned(owner)
                 self._fail(owner, orc,
                            f"{k} {self._brief(op)} raised {ename}: {err}\non:\n{pre_text}",
@@ -1198,6 +1275,28 @@ class AclMachine(Machine):
                     group_by=cfg["group_by"], port_nr=cfg["port_nr"],
                     protocol_nr=cfg["protocol_nr"], lines=lines, members=members)
 
+    def _gen_create_cfg(self, w):
+        """Two ACLs and the address groups they reference, as one device configuration."""
+        cfg = self.cfg
+        platform = cfg["platform"]
+        gcfg = dict(cfg, p_group=max(cfg["p_group"], 0.3))
+        acls_ = []
+        for name in ("CFG1", "CFG2"):
+            lines, specs = gen.gen_acl_lines(w, gcfg, platform, cfg["version"])
+            acls_.append(dict(name=name, lines=lines))
+            self._specs = [s_ for s_ in specs if s_]
+        groups = {}
+        for g in gen.GROUP_NAMES:
+            mem = []
+            for _ in range(w.randint(1, 3)):
+                k = w.choice([0, 2, 4, 8, 16])
+                mask = (1 << k) - 1
+                mem.append([gen._base(w) & ~mask & 0xFFFFFFFF, mask])
+            groups[g] = mem
+        return dict(op="create_cfg", platform=platform, version=cfg["version"], acls=acls_,
+                    groups=groups, indent=cfg["indent"], group_by=cfg["group_by"],
+                    port_nr=cfg["port_nr"], protocol_nr=cfg["protocol_nr"])
+
     def _gen_line(self, w, m):
         cfg = self.cfg
         specs = getattr(self, "_specs", [])
@@ -1229,6 +1328,8 @@ class AclMachine(Machine):
     def next_op(self, st: Streams) -> dict:
         w, s = st.w, st.s
         cfg = self.cfg
+        if not self.slots and cfg.get("from_config") and "seed_acl" not in cfg:
+            return self._gen_create_cfg(w)
         if not self.slots:
             if "seed_acl" in cfg:
                 return dict(op="create_acl", type="extended",
@@ -1261,6 +1362,11 @@ class AclMachine(Machine):
             return op
         t = s.randrange(len(self.slots))
         op = self._gen_op(kind, self.slots[t], st)
+        if kind == "tcam" and s.random() < 0.5:
+            self._plan = [(t, "set_members", {}), (t, "tcam", {})]
+        if kind == "resequence" and self.prop in ("C10", "C17") and s.random() < 0.3:
+            self._plan = [(t, "set_item_seq", {}), (t, "resequence",
+                                                    {k_: op[k_] for k_ in op if k_ != "memo"})]
         if kind in ("shading", "shadow_of") and s.random() < 0.6 and any(
                 r.kind == "ace" and (r.src.group or r.dst.group) for r in self.slots[t]["m"].flat()):
             self._plan = [(t, "set_members", {}), (t, "shadow_triple", {"skip": op["skip"]})]
@@ -1334,6 +1440,18 @@ class AclMachine(Machine):
         if kind == "set_item_seq":
             return dict(op=kind, i=s.randint(0, 50), j=s.randint(0, 50),
                         n=s.choice([0, 1, 5, 10, 15, 1000, SEQ_MAX]))
+        if kind == "set_ports":
+            cands = [(i, j, side, pm) for i, b in enumerate(m.blocks)
+                     for j, r in enumerate(b.rules) if r.kind == "ace"
+                     for side, pm in (("src", r.sport), ("dst", r.dport))
+                     if pm is not None and pm.op == "eq"]
+            if not cands:
+                return dict(op=kind, i=0, j=0, side="dst", operator="eq", items=[80], via="items")
+            i, j, side, pm = s.choice(cands)
+            n_ = 1 if m.platform != "ios" else s.choice([1, 2, 2, 3])
+            items = sorted(s.sample([21, 22, 25, 80, 443, 8080, 1, 65535], n_))
+            return dict(op=kind, i=i, j=j, side=side, operator="eq", items=items,
+                        via=s.choice(["items", "line"]))
         if kind == "set_note":
             return dict(op=kind, i=s.randint(0, 50), j=s.randint(0, 50),
                         note=s.choice(["n1", "keep me", ["a", 1], {"k": "v"}, ""]))
@@ -1394,6 +1512,8 @@ class AclMachine(Machine):
             else:
                 start = max(0, min(start, SEQ_MAX - span))
             lines = [x[0] for x in mem]
+            if s.random() < 0.25:
+                lines.append(s.choice(lines))  # the same member once more (legal text)
             nested = []
             if plat == "ios" and s.random() < 0.35:
                 lines.insert(s.randint(0, len(lines)), f"group-object NG{s.randint(1, 3)}")
